@@ -145,14 +145,15 @@ Definition props_of_names (tz tar pkl std legacy : bool) (names : list string) :
     legacy
     (mar_of_names names).
 
-(* what torch's zip loader needs: _is_zipfile, and PyTorchFileReader finds the record "data.pkl",
-   i.e. the member "<archive>/data.pkl" where <archive> is the first member's name up to its first "/" *)
+(* what torch's zip loader needs structurally: _is_zipfile, and PyTorchFileReader -- which takes the
+   first member's name up to its first "/" as the archive prefix -- finds the records "version" and
+   "data.pkl" under that prefix.  (It also parses the version number; the value is outside the model.) *)
 Definition torch_accepts (tz : bool) (names : list string) : bool :=
   tz && match names with
         | [] => false
         | n0 :: _ => match upto_slash n0 with
                      | None => false
-                     | Some d => mem_str (d ++ "/data.pkl") names
+                     | Some d => mem_str (d ++ "/version") names && mem_str (d ++ "/data.pkl") names
                      end
         end.
 
